@@ -312,7 +312,7 @@ MODULES = [(MODULE, ["iter_nested_value_children", "map_nested_value[body]"]), (
 
 def bounded_values(tier, seed):
     from pvc import bounded
-    return [bounded.run(PROPERTY, "generated-nested-values", rule="all values of depth <= 3 / width <= 2 over list, tuple, namedtuple, set, dict (container keys included), dataclass (init and non-init fields, frozen) and scalars: "
+    return [bounded.run(PROPERTY, "generated-nested-values", env={"C19_DEPTH": "3" if tier == "quick" else "4"}, timeout=3000, rule="all values of depth <= 3 (quick) / 4 (thorough), width <= 2 over list, tuple, namedtuple, set, dict (container keys included), dataclass (init and non-init fields, frozen) and scalars: "
                         "map_nested_value rebuilds the same types and shape with func applied at exactly the leaves iter_nested_value yields (as multisets, in the same order for ordered containers); "
                         "workflows returning expressions inside such containers evaluate them")]
 
